@@ -113,4 +113,6 @@ func init() {
 	c14Redirect(repo+"solana-tx-meta-parsers.ParseTransactionStatusMetaContainer", "c14Model_ParseMeta")
 	c14Redirect(repo+"solana-tx-meta-parsers.ParseAnyTransactionStatusMeta", "c14Model_ParseAnyMeta")
 	c14Redirect("github.com/gagliardetto/binary.UnmarshalBin", "c14Model_UnmarshalBin")
+	c14Redirect("github.com/fxamacker/cbor/v2.NewDecoder", "c14Model_cborNewDecoder")
+	c14Redirect("(*github.com/fxamacker/cbor/v2.Decoder).Decode", "c14Model_cborDecode")
 }
